@@ -646,12 +646,18 @@ def _c12_run(w, b, valid):
     if total_obs != len(valid):
         # calls made with record=False at a point with no record are not counted anywhere (allowed: none exist in BADS)
         w.violate("C12", "run-obs-count", f"sum of per-record observation counts {total_obs} != number of valid calls {len(valid)}")
+    # identity of a logged point = its internal coordinates (the log's own key); two internal
+    # points one ulp apart can map to the same original-space point and are separate records
     byx = {}
     for c in valid:
-        byx.setdefault(c["x"].tobytes(), []).append(c)
+        key = c["u"].tobytes() if c.get("u") is not None else c["x"].tobytes()
+        byx.setdefault(key, []).append(c)
     level = fl.uncertainty_handling_level
     for i in range(n):
-        obs = byx.get(np.ascontiguousarray(fl.X_orig[i]).tobytes())
+        obs = byx.get(np.ascontiguousarray(fl.X[i] + 0.0).tobytes())
+        if obs and not all(np.array_equal(c["x"], fl.X_orig[i]) for c in obs):
+            w.violate("C12", "run-xorig", "a record's original-space point is not the point the target received for it", i=i)
+            break
         if not obs:
             w.violate("C12", "run-row-not-called", "a log record's point was never passed to the target", i=i)
             break
